@@ -170,3 +170,46 @@ CONTRACTS = [
               _pump_case(C._CloseHeadPumpCondition, True, True), _pump_case(C._OpenHeadPumpCondition, True, False)],
              trusted=["pump speed pattern multiplier is 1.0 (other speeds raise NotImplementedError)"]),
 ]
+
+
+# ---------------------------------------------------------------------------- the status a link reports / is modelled with
+
+def _status_table_case(cls_name):
+    """status as a function of (user status, internal status), for every combination.  Pipes and pumps: closed by the simulator
+    (check valve, tank limit, pump shut-off) means Closed, otherwise the user's status.  Valves: a status fixed by the user / a control
+    (Closed or Open) overrides the valve's own regulation; only an Active valve shows its internal state."""
+    def build(cx):
+        from wntr.network import LinkStatus
+        from wntr.network import elements as EL
+        cls = getattr(EL, cls_name)
+        S = LinkStatus
+        table = []
+        for u in (S.Closed, S.Open, S.Active):
+            for i in (S.Closed, S.Open, S.Active):
+                link = cx.obj(cls, _link_name="L", _user_status=u, _internal_status=i)
+                table.append((u, i, link))
+        cx.target(_all_statuses, [t[2] for t in table])
+
+        def post(out):
+            if not out.returned:
+                return []
+            posts = []
+            for (u, i, _), got in zip(table, out.value):
+                if cls_name.endswith("Valve"):
+                    want = u if u in (S.Closed, S.Open) else i
+                else:
+                    want = S.Closed if i == S.Closed else u
+                posts.append(("status_for_user_%s_internal_%s_is_%s" % (u.name, i.name, want.name), got is want or got == want))
+            return posts
+        cx.ensure(post)
+    return Case(cls_name, build, crosscheck=False)
+
+
+def _all_statuses(links):
+    # harness text: read the property of every link
+    return [l.status for l in links]
+
+
+CONTRACTS.append(Contract("wntr.network.elements:Pipe/Pump/Valve.status", ["C02", "C05", "C09"],
+                          [_status_table_case(c) for c in ("Pipe", "HeadPump", "PowerPump", "PRValve", "PSValve", "FCValve", "TCValve")],
+                          interpret_always=(_all_statuses,), note="the full 3 x 3 table of (user status, internal status) for every link class the simulator supports"))
